@@ -22,7 +22,7 @@ func init() {
 		ID: "C11", Level: "exploration", Primary: "states", EvalCount: "stops",
 		Rule: "liveness restated as bounded progress: Stop must return within B=10s (an order of magnitude above what a correct implementation needs) WITHOUT any client action, and Run must then return nil. " +
 			"One evaluation = a fresh server brought into a connection state (none; 1/8/64 idle; half a frame sent; TLS listener with no / partial ClientHello; StartTLS-upgraded idle; StartTLS answered but handshake never started; busy pipelining; clients not reading " +
-			"large responses so that handlers block in Write (60KB frames that block in the write, 300-byte frames from two handlers that block in the flush, a server configured with a 10-minute write timeout, a client that keeps reading an endless response at a steady moderate pace, and an ldaps session whose client does not read - own bound 25s, crypto/tls spends 5s on the close_notify) - alone and combined ON THE SAME CONNECTION with an Unbind, a half-close, a pending StartTLS handshake or half a frame; all of them together) x optional concurrent second Stop, then Stop is called; plus Stop racing Run's start-up with no client at all (Run parked at its own log statements through the user-supplied logger, and random microsecond offsets), a connection with a history of 150 recovered handler panics, idle connections left over by a PRNG-chosen history of 4..20 connections coming and going, 33/40/100 idle connections, and clients that keep connecting (and then sit idle) while Stop runs on a server with a 10-minute read timeout. If B expires the harness dumps goroutines and lets the clients go: a Stop goroutine parked (in any wait state) " +
+			"large responses so that handlers block in Write (60KB frames that block in the write, 300-byte frames from two handlers that block in the flush, a server configured with a 10-minute write timeout, a client that keeps reading an endless response at a steady moderate pace, and an ldaps session whose client does not read - own bound 25s, crypto/tls spends 5s on the close_notify) - alone and combined ON THE SAME CONNECTION with an Unbind, a half-close, a pending StartTLS handshake or half a frame; all of them together) x optional concurrent second Stop, then Stop is called; plus Stop racing Run's start-up with no client at all (Run parked at its own log statements through the user-supplied logger, and random microsecond offsets), a connection with a history of 150 recovered handler panics, idle connections left over by a PRNG-chosen history of 4..20 connections coming and going, 33/40/100 idle connections, a silent peer accepted at the moment Stop is called on a TLS listener with read and write timeouts configured (60 runs; 1500 in thorough), and clients that keep connecting (and then sit idle) while Stop runs on a server with a 10-minute read timeout. If B expires the harness dumps goroutines and lets the clients go: a Stop goroutine parked (in any wait state) " +
 			"with a gldap connection goroutine parked in network I/O, released only when the clients close, is a violation; so is a Stop that is parked while every handler still running sits inside gldap's own ResponseWriter.Write; and so is a Stop call whose goroutine is found parked at the same place in a second dump taken 30s after every client closed its socket while no handler is running (e.g. one of two concurrent Stop calls that is never woken); anything else is inconclusive. " +
 			"distinct_nontrivial = distinct (state, #connections, second-Stop) triples with at least one connection open at Stop time",
 		Assume: []string{"handlers that block in application code (not in gldap's Write) are outside the statement: the workload's handlers only ever block inside ResponseWriter.Write"},
@@ -163,6 +163,10 @@ func c11Run(c *Ctx) {
 	for _, st := range []string{"idle", "half-frame", "tls-no-hello", "tls-partial-hello", "starttls-idle", "starttls-pending", "after-panic-storm"} {
 		c11One(c, pki, c11State{Name: st, Conns: 2, Debug: true})
 	}
+	// a connection that is being accepted at the very moment Stop is called, on a TLS listener with timeouts configured
+	for i := 0; i < c.N(60, 1500); i++ {
+		c11One(c, pki, c11State{Name: "tls-no-hello+timeouts", Conns: 1 + i%3, Second: i%5 == 4})
+	}
 	// more connections than any small internal queue holds
 	for _, n := range []int{33, 40, 100} {
 		c11One(c, pki, c11State{Name: "idle", Conns: n, Second: n == 40})
@@ -207,9 +211,15 @@ func c11One(c *Ctx, pki *PKI, st c11State) {
 	if st.Name == "connecting-while-stopping" {
 		rt = 10 * time.Minute
 	}
+	if st.Name == "tls-no-hello+timeouts" {
+		rt = 2 * time.Hour // read and write timeouts configured (far away), a silent peer on the TLS port, Stop right away
+	}
 	var wt time.Duration
 	if st.Name == "not-reading+long-write-timeout" {
 		wt = 10 * time.Minute // a configured write timeout far beyond any bound Stop could have
+	}
+	if st.Name == "tls-no-hello+timeouts" {
+		wt = 2 * time.Hour
 	}
 	small := strings.Repeat("s", 300)
 	srv, err := startSrv(SrvCfg{TLS: stc, WriteTimeout: wt, ReadTimeout: rt, LogLevel: lvl}, func(m *gldap.Mux) {
@@ -304,7 +314,7 @@ func c11One(c *Ctx, pki *PKI, st c11State) {
 			}
 			cn.SetDeadline(time.Time{})
 			tc.Write(search(1, "big"))
-		case "tls-no-hello":
+		case "tls-no-hello", "tls-no-hello+timeouts":
 		case "tls-partial-hello":
 			cn.Write([]byte{0x16, 0x03, 0x01, 0x02, 0x00, 0x01, 0x00})
 		case "starttls-idle":
